@@ -6,6 +6,7 @@ import (
 	goat "github.com/avos-io/goat"
 	"io"
 	"strings"
+	"time"
 
 	"google.golang.org/grpc"
 
@@ -52,6 +53,10 @@ func c05(tier string) []*explore.Scenario {
 	// must not reach - or create - a handler invocation that does not own the id
 	out = append(out, donors("C05", []*explore.Scenario{c14One([][2]string{{"Bidi", "lateempty"}}, 1), c14One([][2]string{{"CStream", "lateempty"}}, 1), c14One([][2]string{{"Bidi", "reset"}}, 1)})...)
 	out = append(out, c05FailedWrite(2), c05FailedWrite(1))
+	out = append(out, c01FailedWriteOlder("C05", 1))
+	for _, way := range []string{"cancelled", "expired", "expires-in-write"} {
+		out = append(out, c05DeadContextCall("C05", way, 64, 1), c05DeadContextCall("C05", way, 0, 1))
+	}
 	// every short sequence of handler-side stream operations (SendHeader, SetHeader, sends, trailers): the call's
 	// response envelopes keep their order on the wire
 	out = append(out, handlerSeqs("C05", tier)...)
@@ -485,6 +490,77 @@ func c05TwoConnections(bound int) *explore.Scenario {
 			if !d.ServeDone || !serve2Done {
 				vsched.Fail(fam+"|serve-hang", "Serve did not return on both connections after they closed")
 			}
+		},
+	}
+}
+
+// c05DeadContextCall: a unary call is made with a context that is already done (cancelled, or past its
+// deadline) while another unary call and a stream are in flight on the connection: it fails alone.
+// The others get their own replies and messages, and a later call works (whatever the transport's
+// Write reports for the dead context - its error, or nothing at all - concerns that call only).
+func c05DeadContextCall(prop, way string, capn, bound int) *explore.Scenario {
+	fam := prop + "/dead-context-call"
+	return &explore.Scenario{
+		Name: fmt.Sprintf("%s/dead-context-call/%s/cap=%d/d=%d", prop, way, capn, bound), Family: fam, Prop: prop, Bound: bound, Horizon: time.Hour,
+		Run: func() {
+			w := env.NewWorld()
+			d := env.NewDirect(w, env.DirectOpts{Pipe: env.PipeOpts{Cap: capn}})
+			vsched.Settle()
+			vsched.Explore(true)
+			release := make(chan struct{})
+			a, b, c := w.Rec("a", "Unary"), w.Rec("b", "Unary"), w.Rec("c", "Unary")
+			st := w.Rec("st", "Bidi")
+			w.Unaries["b"] = func(r *env.Rec, ctx context.Context, in string) (string, error) {
+				<-release
+				return "R:" + in, nil
+			}
+			vsched.GoNamed("caller-b", func() { w.CallUnary(d.CC, context.Background(), b, "x") })
+			var cs grpc.ClientStream
+			vsched.GoNamed("caller-st", func() {
+				if cs = w.Open(d.CC, context.Background(), st); cs != nil {
+					env.CSend(st, cs, "m0")
+					env.CRecvOne(st, cs)
+				}
+			})
+			vsched.Quiesce()
+			var ctx context.Context
+			var cancel context.CancelFunc
+			switch way {
+			case "cancelled":
+				ctx, cancel = context.WithCancel(context.Background())
+				cancel()
+			case "expired":
+				ctx, cancel = context.WithDeadline(context.Background(), time.Now().Add(-time.Second))
+			default: // expires-in-write: the deadline passes while the request is on its way
+				ctx, cancel = context.WithTimeout(context.Background(), time.Nanosecond)
+			}
+			defer cancel()
+			vsched.GoNamed("caller-a", func() { w.CallUnary(d.CC, ctx, a, "x") })
+			vsched.QuiesceTime()
+			if !a.CDone || (a.CErr == nil && way != "expires-in-write") {
+				vsched.Fail(fam+"|dead-call", "the call made with a %s context: done=%v err=%v", way, a.CDone, a.CErr)
+			} else if a.CErr == nil {
+				checkUnary(a, "x", fam) // (it was answered before its deadline passed)
+			}
+			close(release)
+			vsched.GoNamed("caller-c", func() { w.CallUnary(d.CC, context.Background(), c, "y") })
+			stDone := false
+			vsched.GoNamed("caller-st2", func() {
+				if cs != nil {
+					env.CSend(st, cs, "m1")
+					env.CRecvOne(st, cs)
+					env.CClose(st, cs)
+					env.CRecvOne(st, cs)
+				}
+				stDone = true
+			})
+			vsched.Quiesce()
+			checkUnary(b, "x", fam)
+			checkUnary(c, "y", fam)
+			if !stDone || st.CErr != io.EOF || !eqStrs(st.CRecv, st.HSent) || len(st.CRecv) != 2 || len(st.CSendErrs) > 0 {
+				vsched.Fail(fam+"|stream", "the stream open while another call was made with a %s context did not go on and complete: %s", way, st.Summary())
+			}
+			finishDirect(d, w, true)
 		},
 	}
 }
